@@ -36,8 +36,9 @@ RULE = (
 )
 ASSUMPTIONS = [
     "libxml2 + the shipped opc-coreProperties.xsd with local transcriptions of dc.xsd/dcterms.xsd decide schema validity",
-    "dates are naive datetimes meaning UTC (docs/api/presentation.rst); tz-aware datetimes and non-str values for string "
-    "properties are driven but not judged (undocumented; str() coercion in the code)",
+    "dates are naive datetimes meaning UTC (docs/api/presentation.rst); a tz-aware datetime must be accepted, persist and leave "
+    "the part valid, and may read back as its wall-clock fields or as the equivalent UTC time (not stated: both taken); non-str "
+    "values for string properties are driven but not judged (undocumented; str() coercion in the code)",
     "a hand-built date text the schema rejects (hh:mm without seconds is not an xsd:dateTime) is never held against the reader",
     "bool for revision: ValueError or stored as 1 are both accepted, anything else is a violation",
     "default-part values are those of CorePropertiesPart.default (title, last_modified_by, revision, modified ~ now)",
@@ -85,12 +86,14 @@ def dec(j):
 
 
 def domain(kind, v):
-    """'accept' | 'reject' | 'bool' | 'unjudged' from the property text and the documentation."""
+    """'accept' | 'aware' | 'reject' | 'bool' | 'unjudged' from the property text and the documentation.  'aware': a
+    time-zone-aware datetime is "any datetime" and must be accepted, stay the same across save/re-open and leave the part valid;
+    WHICH naive value it reads back as (its wall-clock fields or the equivalent UTC time) is not stated: either is taken."""
     if kind == "string":
         return "unjudged" if not isinstance(v, str) else "accept" if len(v) <= 255 else "reject"
     if kind == "date":
         if isinstance(v, dt.datetime):
-            return "accept" if v.tzinfo is None else "unjudged"
+            return "accept" if v.tzinfo is None else "aware"
         return "reject"
     if v is True:
         return "bool"
@@ -174,6 +177,9 @@ def gen_step(r, name, bad=0.2):
         if r.random() < bad:
             return ["set", name, enc(r.choice(DATE_REJECTS)), "dt:rejected"]
         cls, v = gen_date(r, 0.06)
+        if r.random() < 0.15:  # time-zone-aware
+            off = r.choice([0, 0, 330, -480, 840, -840, r.randint(-840, 840)])
+            return ["set", name, enc(v.replace(tzinfo=dt.timezone(dt.timedelta(minutes=off)))), "dt:tz-aware"]
         return ["set", name, enc(v), "dt:" + cls]
     if r.random() < bad:
         return ["set", name, r.choice(REV_BAD[:-1] + [-r.randint(1, 10**6)]), "rev:rejected"]
@@ -432,6 +438,15 @@ def apply_set(acc, part, st, name, value, cls, wit):
     if out != "ok":
         acc.violation("in-domain-rejected:%s" % cls, "%s = %s raised %s" % (name, repr(value)[:80], out), wit)
         return
+    if dom == "aware":
+        wall = value.replace(microsecond=0, tzinfo=None)
+        try:
+            utc = value.astimezone(dt.timezone.utc).replace(microsecond=0, tzinfo=None)
+        except OverflowError:
+            utc = wall
+        got = getattr(part, name)
+        acc.count("tz_aware_datetimes_assigned")
+        value = utc if (got == utc and type(got) is dt.datetime and got.tzinfo is None) else wall
     st.model[name] = value.replace(microsecond=0) if k == "date" else 1 if value is True else value
     st.assigned.add(name)
     st.tainted.discard(name)
@@ -666,10 +681,12 @@ def run_unit(unit, tier, seed, acc):
                 read_corpus(acc, "corpus:" + p)
     elif kind == "undocumented":
         aware = dt.datetime(2020, 1, 2, 3, 4, 5, tzinfo=dt.timezone(dt.timedelta(hours=5, minutes=30)))
-        steps = [["set", "created", enc(aware), "dt:tz-aware"]] + [["set", n, v, "str:non-str"] for n, v in zip(STRINGS, [None, 5, 1.5, True, b"x"[0]])]
+        steps = [["set", n, v, "str:non-str"] for n, v in zip(STRINGS, [None, 5, 1.5, True, b"x"[0]])]
         run_history(acc, "default", steps + [["cycle"]])
-        acc.note("tz-aware datetimes and non-str values for string properties are accepted by the code (strftime ignores tzinfo; "
-                 "str() coercion); undocumented, driven but not judged")
+        for name in DATES:  # aware datetimes are judged (accepted, persistent, valid part): every date property x a few offsets
+            for off in (0, 330, -480, 840):
+                run_history(acc, "default", [["set", name, enc(aware.replace(tzinfo=dt.timezone(dt.timedelta(minutes=off)))), "dt:tz-aware"], ["cycle"], ["cycle"]])
+        acc.note("non-str values for string properties are accepted by the code (str() coercion); undocumented, driven but not judged")
 
 
 def read_corpus(acc, src):
